@@ -278,6 +278,47 @@ def potable_default(chk, P):
     chk.ob("C08.O4", "builder passes (marker, start) to Multi_Range_Defn in its parameter order", ok,
            site=b_cls.lookup("_make_multi_range_tuple").site(), found=got if got is not None else mr, expect="('>=', 5)",
            key="C08.O4|builder")
+    # 3b. the public builder entry point on whole definitions: a form or a modifier, alone or followed by further ranges, acts
+    #     only from its own range start (0 below it) - also when the definition consists of that single part
+    mod_c = P.module("atsim.potentials.config._common")
+
+    class ModFactory(object):
+        """a modifier: called with (argument definitions, builder)"""
+        def m___call__(self, J, args, kwargs):
+            self.got = (args[0], args[1])
+            return W.param("M")
+
+    class FormFactory(object):
+        """a potential form: called with its parameters"""
+        def m___call__(self, J, args, kwargs):
+            self.got = list(args)
+            return W.param("F")
+    for what, is_mod in (("a lone modifier '>=2 sum(...)'", True), ("a lone form '>=2 as.x'", False)):
+        J = F.make_interp(P)
+        J.assumption_fns.append(F.hasattr_true({"deriv": False, "deriv2": False}))
+        pb = J.instantiate(b_cls, [DictV(), DictV()], {}, None)
+        pfr, mreg = DictV(), DictV()
+        pfr.items[Const("as.x").key()] = (Const("as.x"), PyObjV(FormFactory()))
+        mreg.items[Const("sum").key()] = (Const("sum"), PyObjV(ModFactory()))
+        pb.attrs["potential_form_registry"] = pfr
+        pb.attrs["modifier_registry"] = mreg
+        mrd = J.module_global(mod_c, "MultiRangeDefinitionTuple")
+        start = J.call(mrd, [Const(">="), Num(ep.const(2))], {})
+        if is_mod:
+            tup = J.call(J.module_global(mod_c, "PotentialModifierTuple"), [Const("sum"), ListV([], "list"), start, NONE], {})
+            name = "M"
+        else:
+            tup = J.call(J.module_global(mod_c, "PotentialFormInstanceTuple"), [Const("as.x"), ListV([], "list"), start, NONE], {})
+            name = "F"
+        pot = W.run_method(J, pb, "create_potential_function", [tup])
+        below = J.num(J.call(pot, [Num(ep.const(1))], {}))
+        at = J.num(J.call(pot, [Num(ep.const(2))], {}))
+        above = J.num(J.call(pot, [Num(ep.const(3))], {}))
+        ok = below.is_zero() and ep.equal(at, ep.app(("param", name), [ep.const(2)]))[0] \
+            and ep.equal(above, ep.app(("param", name), [ep.const(3)]))[0]
+        chk.ob("C08.O4", "%s: 0 below its start, its own value from the start on" % what, ok,
+               site=b_cls.lookup("create_potential_function").site(), found=(below, at, above), expect="(0, f(2), f(3))",
+               key="C08.O4|lone|%s" % ("modifier" if is_mod else "form"))
     # 4. grammar: no earlier alternative is a prefix of a later one
     gfi = P.func("atsim.potentials.config._multi_range_parser", "_grammar")
     lits = None
